@@ -16,8 +16,8 @@ Print Assumptions C04_rollback_restores_tree.
 (* rekey_ok: destination absent OR AN EMPTY DIRECTORY => success; the old id is gone; the new directory holds
    the new state point file (exactly dumps of the new data), no backup file, the document and every other
    file byte-identical at the same relative path; every other entry of the tree is unchanged; every handle
-   sharing the cell has the new id and stays in its project; (last conjunct, defect F11) no handle's
-   _cached_statepoint is refreshed. *)
+   sharing the cell has the new id, stays in its project and has _cached_statepoint = the new data
+   (handles_follow incl. the cached_statepoint conjunct, true since fix aa8b5a9); no other handle changes. *)
 Theorem C04_rekey_ok : forall frepr w ci cf,
   let c := getC w ci in
   let js := c_jobs c in
@@ -42,13 +42,14 @@ Theorem C04_rekey_ok : forall frepr w ci cf,
     (forall x r, x :: r <> [SPF] -> x :: r <> [SPT] -> get (w_fs w') (dst ++ x :: r) = get (w_fs w) (src ++ x :: r)) /\
     (forall q, under src q = false -> under dst q = false -> get (w_fs w') q = get (w_fs w) q) /\
     (forall j, In j js -> h_id (getH w' j) = new /\ h_s (getH w' j) = h_s h0) /\
-    (forall k, h_cached (getH w' k) = h_cached (getH w k)).
+    (forall j, In j js -> h_cached (getH w' j) = Some (c_data c)) /\
+    (forall k, ~ In k js -> h_cached (getH w' k) = h_cached (getH w k)).
 Proof. exact rekey_ok. Qed.
 Print Assumptions C04_rekey_ok.
 
 (* rekey_conflict: destination a non-empty directory => DestinationExistsError and THE SAME TREE
    (extensional equality of the whole file system: both jobs byte-identical), handles and cells untouched *)
-Theorem C04_rekey_conflict : forall frepr susp w ci cf,
+Theorem C04_rekey_conflict : forall frepr w ci cf,
   let c := getC w ci in
   let h0 := getH w (hd 0%nat (c_jobs c)) in
   let old := h_id h0 in
@@ -59,7 +60,7 @@ Theorem C04_rekey_conflict : forall frepr susp w ci cf,
   get (w_fs w) (wsd ++ [old; SPT]) = None ->
   get (w_fs w) (wsd ++ [old]) = Some Dir -> get (w_fs w) wsd = Some Dir ->
   get (w_fs w) (wsd ++ [new]) = Some Dir -> has_children (w_fs w) (wsd ++ [new]) = true ->
-  exists w', sp_save frepr susp w ci = (w', inr (FExn EDestinationExists)) /\
+  exists w', sp_save frepr false w ci = (w', inr (FExn EDestinationExists)) /\
     fs_eq (w_fs w') (w_fs w) /\ w_hs w' = w_hs w /\ w_cs w' = w_cs w /\ w_ss w' = w_ss w.
 Proof. exact rekey_conflict. Qed.
 Print Assumptions C04_rekey_conflict.
@@ -159,18 +160,18 @@ Print Assumptions C04_update_statepoint_no_overwrite.
 (* ---- handles_follow.
    FULL STATEMENT WANTED: after a successful re-key through a handle, every live copy shows id, path,
    statepoint, cached_statepoint and document of the new job.
-   PROVED (in C04_rekey_ok): id and project (hence path and document file) of every handle in the cell's
-   _jobs list; statepoint is the shared cell.  REFUTED for the code as it is:
-   (1) cached_statepoint still shows the old state point (general form: last conjunct of C04_rekey_ok);
-   (2) a copy.copy taken before the state point was ever accessed is not in _jobs and does not follow. *)
-Theorem C04_handles_follow_cached_refuted :
+   PROVED (in C04_rekey_ok) for every handle in the cell's _jobs list: id, project (hence path and document
+   file), cached_statepoint; statepoint is the shared cell.  C04_handles_follow_example runs it.
+   REFUTED for the code as it is: a copy.copy taken before the state point was ever accessed is not in
+   _jobs and does not follow (known finding, tag 2). *)
+Theorem C04_handles_follow_example :
   let old := JObj [(kA, JInt 0)] in let new := JObj [(kA, JInt 1)] in
-  run wfr w0 0 [ONewSession wA; OOpenSp 0 old; OInit 0 false; OEdit 0 [] (ESetKey kA (JInt 1));
-                OIdPath 0; OSp 0; OCached 0]
-  = [VUnit; VStr (calc_id wfr old); VUnit; VUnit;
-     VIdPath (calc_id wfr new) (wA ++ [WS; calc_id wfr new]); VJson new; VJson old].
-Proof. exact cached_stale_witness. Qed.
-Print Assumptions C04_handles_follow_cached_refuted.
+  run wfr w0 0 [ONewSession wA; OOpenSp 0 old; OInit 0 false; OCopy 0; OEdit 0 [] (ESetKey kA (JInt 1));
+                OIdPath 1; OSp 1; OCached 1; OCached 0]
+  = [VUnit; VStr (calc_id wfr old); VUnit; VStr (calc_id wfr old); VUnit;
+     VIdPath (calc_id wfr new) (wA ++ [WS; calc_id wfr new]); VJson new; VJson new; VJson new].
+Proof. exact follow_example. Qed.
+Print Assumptions C04_handles_follow_example.
 
 Theorem C04_handles_follow_early_copy_refuted :
   let old := JObj [(kA, JInt 0)] in let new := JObj [(kA, JInt 1)] in
@@ -183,7 +184,7 @@ Proof. exact early_copy_witness. Qed.
 Print Assumptions C04_handles_follow_early_copy_refuted.
 
 (* ---- "whenever the state point changes by ANY route the job reappears under the new id": refuted for
-   whole assignment / update_statepoint (they go through SyncedDict._update) *)
+   whole assignment / update_statepoint when the change compares == in Python (SyncedDict._update; tag 3) *)
 Theorem C04_assign_equal_value_refuted :
   let old := JObj [(kA, JInt 1)] in let new := JObj [(kA, JBool true)] in
   calc_id wfr old <> calc_id wfr new /\
@@ -193,18 +194,26 @@ Theorem C04_assign_equal_value_refuted :
 Proof. exact assign_drop_witness. Qed.
 Print Assumptions C04_assign_equal_value_refuted.
 
-Theorem C04_assign_list_refuted :
-  let old := JObj [(kA, JArr [JInt 1; JInt 2])] in let new := JObj [(kA, JArr [JInt 1; JInt 3])] in
-  let w := fst (fst (fold_left (fun st o => fst (step wfr (fst (fst st)) (snd (fst st)) o, VUnit))
-                               [ONewSession wA; OOpenSp 0 old; OInit 0 false; OAssign 0 new] (w0, 0%nat, VUnit))) in
-  run wfr w0 0 [ONewSession wA; OOpenSp 0 old; OInit 0 false; OAssign 0 new; OIds 0]
-  = [VUnit; VStr (calc_id wfr old); VUnit; VExn EJobsCorrupted; VStrs [calc_id wfr new]]
-  /\ get (w_fs w) (wA ++ [WS; calc_id wfr new]) = Some Dir
-  /\ get (w_fs w) (wA ++ [WS; calc_id wfr new; SPF]) = None
-  /\ get (w_fs w) (wA ++ [WS; calc_id wfr new; SPT]) = None
-  /\ get (w_fs w) (wA ++ [WS; calc_id wfr old]) = None.
-Proof. exact assign_list_witness. Qed.
-Print Assumptions C04_assign_list_refuted.
+(* whole assignment is ONE re-key with the merged data (the root saves that nested lists trigger in the
+   middle of SyncedList._update return at once since fix 3806f72), so C04_rekey_ok / _conflict / _noop
+   apply to it verbatim; the example changes and extends a list in place together with another key *)
+Theorem C04_assign_single_rekey : forall frepr w ci new,
+  cell_reset frepr w ci new = sp_save frepr false (set_data w ci (snd (upd_root (c_data (getC w ci)) new))) ci.
+Proof. exact cell_reset_single_rekey. Qed.
+Print Assumptions C04_assign_single_rekey.
+
+Theorem C04_save_suspended_noop : forall frepr w ci, sp_save frepr true w ci = (w, inl tt).
+Proof. exact sp_save_suspended. Qed.
+Print Assumptions C04_save_suspended_noop.
+
+Theorem C04_assign_list_example :
+  let old := JObj [(kA, JArr [JInt 1; JInt 2]); ([120%N], JInt 0)] in
+  let new := JObj [(kA, JArr [JInt 1; JInt 3; JInt 4]); ([120%N], JInt 1)] in
+  run wfr w0 0 [ONewSession wA; OOpenSp 0 old; OInit 0 false; OAssign 0 new; OIds 0; OSp 0; OCached 0; OIdPath 0]
+  = [VUnit; VStr (calc_id wfr old); VUnit; VUnit; VStrs [calc_id wfr new]; VJson new; VJson new;
+     VIdPath (calc_id wfr new) (wA ++ [WS; calc_id wfr new])].
+Proof. exact assign_list_example. Qed.
+Print Assumptions C04_assign_list_example.
 
 (* ---- licence for the correspondence step (partial).
    FULL STATEMENT WANTED: forall c, mismatch_C04 c = false -> known_tag ... = 0 -> holds_C04 c = true.
@@ -214,7 +223,7 @@ Print Assumptions C04_assign_list_refuted.
    get-level statements of C04_rekey_ok / C04_move_ok / C04_clone_ok.
    MISSING: the lift of those statements through the list-level oracle (rel_tree / tree_same_except) and
    over the whole scenario script. *)
-Theorem C04_model_holds_partial : forall frepr susp w ci cf,
+Theorem C04_model_holds_partial : forall frepr w ci cf,
   let c := getC w ci in
   let h0 := getH w (hd 0%nat (c_jobs c)) in
   let old := h_id h0 in
@@ -225,7 +234,7 @@ Theorem C04_model_holds_partial : forall frepr susp w ci cf,
   get (w_fs w) (wsd ++ [old; SPT]) = None ->
   get (w_fs w) (wsd ++ [old]) = Some Dir -> get (w_fs w) wsd = Some Dir ->
   get (w_fs w) (wsd ++ [new]) = Some Dir -> has_children (w_fs w) (wsd ++ [new]) = true ->
-  let '(w', r) := sp_save frepr susp w ci in
+  let '(w', r) := sp_save frepr false w ci in
   out_unit r = VExn EDestinationExists /\ tree_same_except [] (w_fs w) (w_fs w') = true.
 Proof. exact conflict_oracle_clause. Qed.
 Print Assumptions C04_model_holds_partial.
